@@ -217,6 +217,9 @@ func trieDrive(args []string) error {
 			alpha[i] = pool[perm[i]]
 		}
 		maxLen := 1 + r.Intn(8)
+		if sid%4 == 3 { // long members: deep tries (anything sized for "typical" short keys shows here)
+			maxLen = 12 + r.Intn(60)
+		}
 		nops := maxOps/4 + r.Intn(maxOps-maxOps/4+1)
 		randStr := func(allowEmpty bool) []byte {
 			n := r.Intn(maxLen + 1)
